@@ -3799,7 +3799,7 @@ trb_ext_iter_next(ly_bool lysc_tree, void *exts, LY_ARRAY_COUNT_TYPE *i)
     if (lysc_tree) {
         ce = exts;
         while (*i < LY_ARRAY_COUNT(ce)) {
-            if (ce->def->plugin && trp_ext_parent_is_valid(1, &ce[*i])) {
+            if (ce[*i].def->plugin && trp_ext_parent_is_valid(1, &ce[*i])) {
                 ext = &ce[*i];
                 break;
             }
@@ -3874,18 +3874,19 @@ tro_ext_printer_tree(ly_bool compiled, void *ext, const struct lyspr_tree_ctx *p
     if (compiled) {
         ext_comp = ext;
         plugin = ext_comp->def->plugin;
-        if (!plugin->printer_ctree) {
+        if (!plugin || !plugin->printer_ctree) {
             *ignore = 1;
             return LY_SUCCESS;
         }
         return plugin->printer_ctree(ext, plug_ctx, &flags, &add_opts);
     } else {
         ext_pars = ext;
-        plugin = &ext_pars->record->plugin;
-        if (!plugin->printer_ptree) {
+        if (!ext_pars->record || !ext_pars->record->plugin.printer_ptree) {
+            /* no plugin for this extension */
             *ignore = 1;
             return LY_SUCCESS;
         }
+        plugin = &ext_pars->record->plugin;
         return plugin->printer_ptree(ext, plug_ctx, &flags, &add_opts);
     }
 
